@@ -12,9 +12,9 @@ class CountControlConstructionTokenTranslator(AbstractTranslator):
     @classmethod
     def translate(cls, token: CountControlConstructionToken, excel: Excel, context: Context) -> str:
         args = get_flatten_list(token, excel, context)
-        matrices = ', '.join(
+        matrices = '[' + ', '.join(
             MatrixOfCellIdentifiersTokenTranslator.translate(matrix, excel, context)
             for matrix in token.matrices
-        ) or []
+        ) + ']'
         arg_cells = ', '.join(CellTranslator.translate(arg.cell, excel, context) for arg in token.arg_cells)
         return f'self._count({matrices}, {args}, [{arg_cells}])'
